@@ -240,4 +240,99 @@ theorem written_signal_attribute (m : RMatrix) (hm : m.pending = none) (hu : Key
   rw [this]
   exact effect_ba_signal m attr v s.sg.name n i j f hfi hf (lookup_signal f hn j s hs) hnum
 
+/-! ## the frame section builds the frames -/
+
+/-- the frame a `BO_` line makes -/
+def frameOfBo (b : BoLine) (k : Nat × Bool) : RFrame := { key := k, name := b.name, size := b.size, transmitters := [b.transmitter] }
+
+theorem apply_bo (m : RMatrix) (b : BoLine) (k : Nat × Bool) (hk : boKey b = some k) :
+    applyItem m (.bo b) = { m with frames := m.frames ++ [frameOfBo b k], cur := some m.frames.length } := by
+  simp only [applyItem, Item.frameNo, applyCore, hk]
+  rfl
+
+theorem modifyAt_last {α} (l : List α) (a : α) (g : α → α) : modifyAt (l ++ [a]) l.length g = l ++ [g a] := by
+  induction l with
+  | nil => rfl
+  | cons x r ih => simp [modifyAt, ih]
+
+/-- a `SG_` line appends its signal to the frame that was opened last -/
+theorem apply_sg_last (m : RMatrix) (fs : List RFrame) (f : RFrame) (s : SgLine) (hf : m.frames = fs ++ [f]) (hc : m.cur = some fs.length) :
+    applyItem m (.sg s) =
+      { m with frames := fs ++ [{ f with sigs := f.sigs ++ [{ sg := s }],
+                                          complexMux := f.complexMux || tagIsValMuxer s.tag }] } := by
+  simp only [applyItem, Item.frameNo, applyCore, hc, RMatrix.modFrame, hf, modifyAt_last]
+
+def sigsOf (ss : List SgLine) : List RSig := ss.map fun s => { sg := s }
+
+theorem rereadSg_tag (s : SgLine) : (rereadSg s).tag = s.tag := rfl
+
+theorem sgs_fold (sigs : List SgLine) (m : RMatrix) (fs : List RFrame) (f : RFrame) (hf : m.frames = fs ++ [f])
+    (hc : m.cur = some fs.length) (hm : m.pending = none) (hw : ∀ s ∈ sigs, wfSg s = true) :
+    (sigs.map renderSg).foldl stepFile m =
+      { m with frames := fs ++ [{ f with sigs := f.sigs ++ sigsOf (sigs.map rereadSg),
+                                          complexMux := f.complexMux || sigs.any fun s => tagIsValMuxer s.tag }] } := by
+  induction sigs generalizing m f with
+  | nil =>
+    simp only [List.map_nil, List.foldl_nil, sigsOf, List.append_nil, List.any_nil, Bool.or_false]
+    cases m; simp_all
+  | cons s sigs ih =>
+    simp only [List.map_cons, List.foldl_cons]
+    have h1 := step_stmt m (.sg s) hm (hw s (by simp))
+    simp only [Stmt.line, applyStmt, Stmt.item] at h1
+    rw [h1, apply_sg_last m fs f (rereadSg s) hf hc]
+    let f' : RFrame := { f with sigs := f.sigs ++ [{ sg := rereadSg s }], complexMux := f.complexMux || tagIsValMuxer (rereadSg s).tag }
+    refine Eq.trans (ih { m with frames := fs ++ [f'] } f' rfl hc hm
+      (fun x hx => hw x (List.mem_cons_of_mem _ hx))) ?_
+    simp [f', sigsOf, rereadSg_tag, Bool.or_assoc]
+
+/-- the frame a written block makes -/
+def frameOfBlock (b : Block) (k : Nat × Bool) : RFrame :=
+  { key := k, name := b.bo.name, size := b.bo.size, transmitters := [b.bo.transmitter], sigs := sigsOf (b.sigs.map rereadSg),
+    complexMux := b.sigs.any fun s => tagIsValMuxer s.tag }
+
+theorem step_gap (m : RMatrix) (hm : m.pending = none) : stepFile m [] = m := by
+  have := step_stmt m .gap hm rfl
+  simpa [Stmt.line, applyStmt, Stmt.item] using this
+
+theorem block_fold (b : Block) (k : Nat × Bool) (m : RMatrix) (hm : m.pending = none) (hw : wfBlock b = true)
+    (hk : boKey b.bo = some k) :
+    (writeBlock b).foldl stepFile m = { m with frames := m.frames ++ [frameOfBlock b k], cur := some m.frames.length } := by
+  obtain ⟨hbo, hsg⟩ := wfBlock_unpack hw
+  unfold writeBlock
+  simp only [List.foldl_cons, List.foldl_append, List.foldl_nil]
+  have h1 := step_stmt m (.bo b.bo) hm hbo
+  simp only [Stmt.line, applyStmt, Stmt.item] at h1
+  rw [h1, apply_bo m b.bo k hk]
+  have h2 := sgs_fold b.sigs { m with frames := m.frames ++ [frameOfBo b.bo k], cur := some m.frames.length } m.frames
+    (frameOfBo b.bo k) rfl rfl hm hsg
+  rw [h2, step_gap _ (by exact hm)]
+  simp [frameOfBlock, frameOfBo, sigsOf]
+
+/-- the frames a written frame section makes, in their order -/
+def framesOfBlocks : List Block → List (Nat × Bool) → List RFrame
+  | b :: bs, k :: ks => frameOfBlock b k :: framesOfBlocks bs ks
+  | _, _ => []
+
+/-- reading the written frame section appends its frames, each with its signals, in the order of the file -/
+theorem frames_fold (bs : List Block) (ks : List (Nat × Bool)) (m : RMatrix) (hm : m.pending = none)
+    (hw : ∀ b ∈ bs, wfBlock b = true) (hk : bs.map (fun b => boKey b.bo) = ks.map some) :
+    ((writeFrames bs).foldl stepFile m).frames = m.frames ++ framesOfBlocks bs ks ∧
+    ((writeFrames bs).foldl stepFile m).pending = none ∧
+    ((writeFrames bs).foldl stepFile m).ecus = m.ecus ∧ ((writeFrames bs).foldl stepFile m).errors = m.errors := by
+  induction bs generalizing ks m with
+  | nil => simp [writeFrames, framesOfBlocks, hm]
+  | cons b bs ih =>
+    cases ks with
+    | nil => simp at hk
+    | cons k ks =>
+      simp only [List.map_cons, List.cons.injEq] at hk
+      simp only [writeFrames, List.flatMap_cons, List.foldl_append]
+      rw [block_fold b k m hm (hw b (by simp)) hk.1]
+      have := ih ks { m with frames := m.frames ++ [frameOfBlock b k], cur := some m.frames.length } hm
+        (fun x hx => hw x (List.mem_cons_of_mem _ hx)) hk.2
+      simp only [writeFrames] at this
+      refine ⟨?_, this.2.1, this.2.2.1, this.2.2.2⟩
+      rw [this.1]
+      simp [framesOfBlocks]
+
 end CanVerif.Dbc.FileProofs
